@@ -494,7 +494,10 @@ def inject(block, fault, fsite):
             src = [w for w in wires if isinstance(w, pyrtl.Input) and w.bitwidth >= n.dests[0].bitwidth]
             if not src:
                 return False
-            block.logic.add(LogicNet('w', None, (src[0],), (n.dests[0],)))
+            extra = LogicNet('w', None, (src[0],), (n.dests[0],))
+            if extra in block.logic:       # the very same net already exists: adding it again is not a second driver
+                return False
+            block.logic.add(extra)
         elif fault == 'undriven':
             readers = set()
             for n in nets:
